@@ -527,7 +527,7 @@ def mean_grp(xx, groups, num_groups, nodata, yy):
             if pixv == nodata:
                 continue
             if n == 0:
-                avg = pixv
+                avg = pixv * 1.0
             else:
                 avg += pixv
             n += 1
